@@ -16,8 +16,10 @@ pub fn gen_stream(r: &mut Rng, blocks: bool, tags: bool) -> Rendered {
         g.stream()
     };
     let comments = r.chance(3, 4);
+    let tabs = r.chance(1, 2);
     let mut rend = Renderer::new(r);
     rend.comments = comments;
+    rend.trailing_tabs = tabs;
     rend.render_stream(&docs, true)
 }
 
